@@ -99,7 +99,9 @@ func (h *histRunner) rx(raw []byte, tag string) {
 	}
 	gw := h.gws[h.rng.Intn(len(h.gws))]
 	datr := datrs[h.rng.Intn(len(datrs))]
-	if h.badDatr && h.rng.Intn(25) == 0 {
+	if h.badDatr && h.rng.Intn(25) == 0 && !(len(raw) > 0 && raw[0]>>5 == 0) {
+		// an unknown data-rate string (never on a join-request: with payload left in the buffer the accept
+		// cannot be built and the join is honoured silently - outside the quantifiers, see DESIGN 10.5)
 		datr = "SF6BW999"
 	}
 	rssi := int32(-h.rng.Intn(130))
@@ -139,6 +141,18 @@ func (h *histRunner) rx(raw []byte, tag string) {
 						sd.addr, sd.nwk, sd.app, sd.fcnt, sd.joined = a, nk, ak, 0, true
 					}
 				}
+			}
+		}
+	}
+	if appnonce == "" && len(raw) == 23 && raw[0]>>5 == 0 {
+		// a join that was honoured without an accept leaving: read the nonce back from the stored keys
+		var de protocol.EUI
+		for i := 0; i < 8; i++ {
+			de.Octets[i] = raw[16-i]
+		}
+		for _, sd := range h.devs {
+			if sd.eui == de && sd.registered {
+				appnonce, newaddr = h.recoverAppNonce(sd)
 			}
 		}
 	}
@@ -299,6 +313,9 @@ func corrupt(rng *rand.Rand, f []byte) ([]byte, string) {
 }
 
 func runHistory(rng *rand.Rand, prof histProfile, w *Writer, suite string) {
+	if os.Getenv("VERIF_EXPLORE") != "" { // exploratory runs: everything the profiles leave out
+		prof.badDatr, prof.maxSubmit, prof.wJoin, prof.wReplay, prof.wCorrupt = true, 0, prof.wJoin+2, prof.wReplay+1, prof.wCorrupt+1
+	}
 	opts := worldOpts{netID: uint(rng.Intn(1 << 24))}
 	if prof.nonceOff > 0 && rng.Intn(prof.nonceOff) == 0 {
 		opts.disableNonceCheck = true
